@@ -43,7 +43,7 @@ Xb(c) == c.nx \div 2
 Ghost(c, f, o) == IF Oct(c, o).owner = f THEN 0 ELSE 500000
 Tok(kind, o, ind, v) == kind * 100000 + (o * 8 + ind) * 16 + v          \* kind 0 hydro, 1 grav, 2 rt
 PTok(f, j, v) == 300000 + (f * 64 + j) * 16 + v
-PByte(f, j, v) == (f * 31 + j * 7 + v) % 100
+PByte(f, j, v) == ((f * 31 + j * 7 + v) % 200) - 100          \* signed bytes (RAMSES family codes are negative for tracers)
 
 \* ------------------------------------------------------------------ amr file
 AmrHeader(c, f) ==
